@@ -170,6 +170,6 @@ def cfg_shortest(tier, seed):
 
 HARNESSES = [
     H("half_cell", h_half, cfg_half),
-    H("shift_idempotent", h_shift, cfg_shift),
+    H("shift_idempotent", h_shift, cfg_shift, rint_lemmas=("L1", "L2", "L3", "L4")),
     H("shortest_image", h_shortest, cfg_shortest),
 ]
